@@ -18,6 +18,9 @@ func unhex(s string) []byte {
 	if s == "-" {
 		return nil
 	}
+	if s == "_" {
+		return []byte{}
+	}
 	b, err := hex.DecodeString(s)
 	if err != nil {
 		panic("bad hex " + s)
